@@ -159,6 +159,10 @@ def traverse_path_step(obj: Any, segment: str) -> Any:
     if isinstance(obj, dict):
         return obj[segment]
 
+    # Dynamic fields of a DictLikeModel are keyed by name: "0" is a key, not an index
+    if isinstance(obj, DictLikeModel):
+        return getattr(obj, segment)
+
     # Attempt list/tuple index
     try:
         idx = int(segment)
@@ -180,6 +184,11 @@ def assign_path_step(obj: Any, segment: str, value: Any) -> None:
     """
     if isinstance(obj, dict):
         obj[segment] = value
+        return
+
+    # Dynamic fields of a DictLikeModel are keyed by name: "0" is a key, not an index
+    if isinstance(obj, DictLikeModel):
+        setattr(obj, segment, value)
         return
 
     # Attempt list/tuple index assignment
